@@ -10,6 +10,6 @@ CONF = dict(
 
 TEXT = dict(
     text='Machine-checked proof (Coq) over an executable model of the transaction wire codec: for every well-formed transaction parse(serialize t ++ rest) = (t, rest), and every accepted byte string with a canonical flag re-serializes to exactly the bytes consumed; varint round-trip and canonicity for all 64-bit values. Unbounded in counts and lengths. The model is tied to the code by differential runs (model vs implementation on structured and malformed inputs) and by regenerated constants.',
-    note=COMMON_NOTE + 'Modelled by hand: transaction.serialize/NewTxFromBuffer, bufferutil readers/writers (after fix 23c9d1b), block/serialize.go and block/deserialize.go (after fix 246dd82); Go struct values the wire cannot express (both or neither of Compact/Full, nil ExtData) are outside the model's types.',
+    note=COMMON_NOTE + 'Modelled by hand: transaction.serialize/NewTxFromBuffer, bufferutil readers/writers (after fix 23c9d1b), block/serialize.go and block/deserialize.go (after fix 246dd82); Go struct values the wire cannot express (both or neither of Compact/Full, nil ExtData) are outside the types of the model.',
     technique='Coq proof of codec round-trip (both directions) + model/implementation differential check',
 )
